@@ -2,6 +2,7 @@
 package c17
 
 import (
+	"bytes"
 	"fmt"
 	"net"
 	"sync"
@@ -20,7 +21,7 @@ import (
 
 func TestMain(m *testing.M) {
 	harness.Property("C17",
-		"race-detector build; scenario = messages with compressed sizes 200 B..60 KiB transferred between two real Sessions with a StatusUpdater installed on both sides, transport pacing drawn per write from 0 to 400 ms (so the 250 ms reporter ticks 0..n times), transports with and without TxBufferLen/Flush. Oracle: no data race report whose stack contains a wl2k-go frame (driver parses the race detector output), and per transferred message and side every Status names the proposal, 0 <= BytesTransferred <= BytesTotal == compressed size, exactly one Done and it is the last. Non-trivial = at least one non-final report was delivered during a transfer; distinct by hash(scenario, pacing).",
+		"race-detector build; scenario = messages with compressed sizes 200 B..60 KiB transferred between two real Sessions with a StatusUpdater installed on both sides, transport pacing drawn per write from 0 to 400 ms (so the 250 ms reporter ticks 0..n times), transports with and without TxBufferLen/Flush (modem models: a quarter, half or all of the written bytes queued until Flush; the buffer query answers at once or after 30..240 ms); in a fifth of the cases the receiving station's answer is rewritten in transit to an offset accept (FS !n), so that the sender performs a resumed transfer. Oracle: no data race report whose stack contains a wl2k-go frame (driver parses the race detector output), and per transferred message and side every Status names the proposal, 0 <= BytesTransferred <= BytesTotal == compressed size, exactly one Done and it is the last. Non-trivial = at least one non-final report was delivered during a transfer; distinct by hash(scenario, pacing).",
 		"the final Done report is asynchronous: the harness waits up to 30 s for it after Exchange returns (a missing report after 30 s is a violation: normal latency is microseconds)",
 		"race freedom is decided by the Go race detector on the executed interleavings only",
 	)
@@ -37,6 +38,14 @@ type Case struct {
 	// leaves the modem before Flush, so the queue always exceeds the message bytes handed over so far)
 	QueueA int `json:"queue_a_quarters,omitempty"`
 	QueueB int `json:"queue_b_quarters,omitempty"`
+	// how long the modem takes to answer TxBufferLen (ms)
+	QueryA int `json:"query_a_ms,omitempty"`
+	QueryB int `json:"query_b_ms,omitempty"`
+	// ResumeAt > 0 (A has exactly one message for B, B none): B's answer "FS +" is rewritten in transit to
+	// "FS !<ResumeAt>", i.e. the receiving station asks for a resumed transfer from that offset (legal B2F that
+	// the library's own receiving side never produces). Only A's reports are judged: B, which did not ask for
+	// an offset, rejects the resumed frame and both Exchange calls fail, which is not this property's business.
+	ResumeAt int `json:"resume_at,omitempty"`
 }
 
 type rec struct {
@@ -74,10 +83,34 @@ func run(c Case) (sig, msg string, nonFinal int) {
 		return "harness-generator", err.Error(), 0
 	}
 	ra, rb := &rec{}, &rec{}
+	var resume []stream.Edit
+	resumeMID := ""
+	if c.ResumeAt > 0 {
+		// locate B's answer line in a clean run of the same scenario
+		ca, _ := scen.NewStation(c.Sc.A)
+		cb, _ := scen.NewStation(c.Sc.B)
+		clean := scen.RunSession(c.Sc, ca, cb, scen.Hooks{Limit: 10 * time.Minute})
+		if clean.Hung || clean.A.Err != nil || clean.B.Err != nil || len(clean.A.Stats.Sent) != 1 {
+			return "harness-generator", fmt.Sprintf("resume family: the clean run did not transfer exactly one message (A=%v B=%v sent=%v)", clean.A.Err, clean.B.Err, clean.A.Stats.Sent), 0
+		}
+		w := clean.EndB.Written()
+		at := bytes.Index(w, []byte("FS +\r"))
+		if at < 0 || bytes.Index(w[at+1:], []byte("FS +\r")) >= 0 {
+			return "harness-generator", "resume family: B's answer line not found exactly once", 0
+		}
+		resumeMID = clean.A.Stats.Sent[0]
+		resume = []stream.Edit{{Off: int64(at + 3), Kind: "sub", Val: '!'}}
+		for _, d := range []byte(fmt.Sprint(c.ResumeAt)) {
+			resume = append(resume, stream.Edit{Off: int64(at + 4), Kind: "ins", Val: d})
+		}
+	}
 	out := scen.RunSession(c.Sc, sa, sb, scen.Hooks{
 		Link: func(a, b *stream.End) {
 			a.SetPacing(ms(c.PaceA))
 			b.SetPacing(ms(c.PaceB))
+			if resume != nil {
+				b.Tamper(resume)
+			}
 		},
 		Session: func(side string, s *fbb.Session) {
 			if side == "A" {
@@ -89,9 +122,9 @@ func run(c Case) (sig, msg string, nonFinal int) {
 		Conn: func(side string, e *stream.End) net.Conn {
 			if (side == "A" && c.ModemA) || (side == "B" && c.ModemB) {
 				m := stream.NewModem(e)
-				m.Quarters = c.QueueA
+				m.Quarters, m.QueryDelay = c.QueueA, time.Duration(c.QueryA)*time.Millisecond
 				if side == "B" {
-					m.Quarters = c.QueueB
+					m.Quarters, m.QueryDelay = c.QueueB, time.Duration(c.QueryB)*time.Millisecond
 				}
 				return m
 			}
@@ -108,7 +141,7 @@ func run(c Case) (sig, msg string, nonFinal int) {
 	if out.B.PSig != "" {
 		return out.B.PSig, out.B.Panic, 0
 	}
-	if out.A.Err != nil || out.B.Err != nil {
+	if resume == nil && (out.A.Err != nil || out.B.Err != nil) {
 		return "exchange-error", fmt.Sprintf("A=%v B=%v", out.A.Err, out.B.Err), 0
 	}
 	// expected transfers per side
@@ -119,6 +152,11 @@ func run(c Case) (sig, msg string, nonFinal int) {
 		name     string
 	}
 	ws := []want{{ra, out.A.Stats.Sent, out.A.Stats.Received, "A"}, {rb, out.B.Stats.Sent, out.B.Stats.Received, "B"}}
+	if resume != nil {
+		// A wrote the whole resumed frame (the link buffers), so its transfer ran to the end and must have been
+		// reported like any other; B's side is not judged
+		ws = []want{{ra, []string{resumeMID}, nil, "A(resumed transfer)"}}
+	}
 	// wait for the asynchronous Done reports
 	deadline := time.Now().Add(30 * time.Second)
 	for {
@@ -226,8 +264,13 @@ func genCase(t *rapid.T) Case {
 	sc.A = scen.Side{Call: "LA5NTA", Sched: gen.Schedule(t, "schedA")}
 	sc.B = scen.Side{Call: "N0CALL", Sched: gen.Schedule(t, "schedB")}
 	n := rapid.IntRange(1, 3).Draw(t, "nmsgs")
+	resumeAt := 0
+	if rapid.IntRange(0, 4).Draw(t, "resumed") == 0 {
+		n, resumeAt = 1, rapid.SampledFrom([]int{1, 6, 100, 150, 199}).Draw(t, "resume_at")
+	}
 	for i := 0; i < n; i++ {
 		spec := msggen.Gen(t, used, "LA5NTA", "N0CALL", 200)
+		spec.Tuned = ""
 		// body of incompressible bytes so that the compressed size is controlled: 200 B .. 60 KiB
 		size := rapid.SampledFrom([]int{200, 1000, 4000, 12000, 30000, 60000}).Draw(t, "size")
 		sm := gen.NewSM(rapid.Uint64().Draw(t, "seed"))
@@ -236,7 +279,7 @@ func genCase(t *rapid.T) Case {
 			b[j] = byte(sm.Next())
 		}
 		spec.RawBody, spec.Body, spec.Files = b, "", nil
-		if rapid.Bool().Draw(t, "dirAB") {
+		if rapid.Bool().Draw(t, "dirAB") || resumeAt > 0 {
 			sc.A.Queue = append(sc.A.Queue, spec)
 		} else {
 			spec.From, spec.To = "N0CALL", []string{"LA5NTA"}
@@ -255,7 +298,9 @@ func genCase(t *rapid.T) Case {
 		}
 	}
 	return Case{Sc: sc, PaceA: pace("paceA"), PaceB: pace("paceB"), ModemA: rapid.Bool().Draw(t, "modemA"), ModemB: rapid.Bool().Draw(t, "modemB"),
-		QueueA: rapid.SampledFrom([]int{1, 2, 4, 4}).Draw(t, "queueA"), QueueB: rapid.SampledFrom([]int{1, 2, 4, 4}).Draw(t, "queueB")}
+		QueueA: rapid.SampledFrom([]int{1, 2, 4, 4}).Draw(t, "queueA"), QueueB: rapid.SampledFrom([]int{1, 2, 4, 4}).Draw(t, "queueB"),
+		QueryA: rapid.SampledFrom([]int{0, 0, 0, 30, 120, 240}).Draw(t, "queryA"), QueryB: rapid.SampledFrom([]int{0, 0, 0, 30, 120, 240}).Draw(t, "queryB"),
+		ResumeAt: resumeAt}
 }
 
 // bound the total sleeping of a case (writes are ~ size/125 per message)
@@ -303,6 +348,12 @@ func TestProp(t *testing.T) {
 		}
 		if c.ModemA || c.ModemB {
 			harness.Label("txbuffer-transport")
+		}
+		if c.ResumeAt > 0 {
+			harness.Label("resumed-transfer(FS !offset)")
+		}
+		if (c.ModemA && c.QueryA > 0) || (c.ModemB && c.QueryB > 0) {
+			harness.Label("txbuffer-query-takes-time")
 		}
 		if (c.ModemA && c.QueueA == 4 && len(c.Sc.A.Queue) > 0) || (c.ModemB && c.QueueB == 4 && len(c.Sc.B.Queue) > 0) {
 			harness.Label("txbuffer-holds-everything-until-flush(sender)")
